@@ -38,6 +38,7 @@
 #include <signal.h>
 #include <sys/mman.h>
 #include <sys/prctl.h>
+#include <grp.h>
 #include <sys/resource.h>
 #include <sys/stat.h>
 #include <sys/time.h>
@@ -571,8 +572,15 @@ size_t read_keys(const Case& c, std::vector<std::string>& keys, const Out& out) 
 
 // Returns "ret:<n>", "exc" or "other:<..>". If the grandchild ends abnormally this process ends the same way
 // (its stderr is shared with ours, so the parent classifies it).
+extern "C" void lift_limit_handler(int) {
+    struct rlimit rl;
+    rl.rlim_cur = RLIM_INFINITY;
+    rl.rlim_max = RLIM_INFINITY;
+    ::setrlimit(RLIMIT_FSIZE, &rl);   // async-signal-safe: the refusal was transient
+}
+
 template <class Trie>
-std::string limited_save(const Trie& t, const std::string& path, std::uint64_t limit) {
+std::string limited_save(const Trie& t, const std::string& path, std::uint64_t limit, bool transient = false) {
     int pfd[2];
     if (::pipe(pfd) != 0) throw std::runtime_error("pipe failed");
     pid_t g = ::fork();
@@ -583,10 +591,15 @@ std::string limited_save(const Trie& t, const std::string& path, std::uint64_t l
     }
     if (g == 0) {
         ::close(pfd[0]);
-        ::signal(SIGXFSZ, SIG_IGN);
         struct rlimit rl;
         rl.rlim_cur = static_cast<rlim_t>(limit);
-        rl.rlim_max = static_cast<rlim_t>(limit);
+        if (transient) {
+            ::signal(SIGXFSZ, lift_limit_handler);   // the first write over the limit fails (EFBIG), later ones succeed
+            rl.rlim_max = RLIM_INFINITY;
+        } else {
+            ::signal(SIGXFSZ, SIG_IGN);
+            rl.rlim_max = static_cast<rlim_t>(limit);
+        }
         ::setrlimit(RLIMIT_FSIZE, &rl);
         std::string msg;
         try {
@@ -965,6 +978,72 @@ struct TrieSession {
                 }
                 out("limit " + rep + " size:" + (sz.has_value() ? u64s(sz.value()) : std::string("-")) + " load:" + ld);
             });
+        } else if (o == "LIMITT") {   // transient refusal at byte offset n: `limitt exc` or `limitt ret:<count> size:<n> load:<..>`
+            std::uint64_t n = 0;
+            if (tk.size() != 2 || !parse_u64(tk[1], n)) return (void)bad_arg(out, line);
+            guarded(out, "limitt", [&] {
+                TempFile tf;
+                std::string rep = limited_save(*cur, tf.path, n, true);
+                if (rep.rfind("ret:", 0) != 0) {
+                    // save reported the failure: what is on disk is unspecified (possibly rewritten garbage), do not load it
+                    out("limitt " + rep);
+                    return;
+                }
+                auto sz = file_size(tf.path);
+                std::string ld;
+                try {
+                    Trie t = xcdat::load<Trie>(tf.path);
+                    (void)t;
+                    ld = "ok";
+                } catch (const xcdat::exception&) {
+                    ld = "exc";
+                } catch (...) {
+                    ld = "other";
+                }
+                out("limitt " + rep + " size:" + (sz.has_value() ? u64s(sz.value()) : std::string("-")) + " load:" + ld);
+            });
+        } else if (o == "XLRO") {   // load the saved file as an unprivileged user who may read but not write it
+            if (tk.size() != 1) return (void)bad_arg(out, line);
+            guarded(out, "xlro", [&] {
+                TempFile tf;
+                xcdat::save(*cur, tf.path);
+                ::chmod(tf.path.c_str(), 0444);
+                int pfd[2];
+                if (::pipe(pfd) != 0) throw std::runtime_error("pipe failed");
+                pid_t g = ::fork();
+                if (g == 0) {
+                    ::close(pfd[0]);
+                    const char* msg = "skip";
+                    if (::setgroups(0, nullptr) == 0 && ::setgid(65534) == 0 && ::setuid(65534) == 0 &&
+                        ::access(tf.path.c_str(), R_OK) == 0 && ::access(tf.path.c_str(), W_OK) != 0) {
+                        try {
+                            Trie t = xcdat::load<Trie>(tf.path);
+                            (void)t;
+                            msg = "ok";
+                        } catch (const xcdat::exception&) {
+                            msg = "exc";
+                        } catch (...) {
+                            msg = "other";
+                        }
+                    }
+                    write_all(pfd[1], msg, std::strlen(msg));
+                    ::_exit(0);
+                }
+                ::close(pfd[1]);
+                std::string msg;
+                char buf[64];
+                for (;;) {
+                    ssize_t r = ::read(pfd[0], buf, sizeof(buf));
+                    if (r < 0 && errno == EINTR) continue;
+                    if (r <= 0) break;
+                    msg.append(buf, static_cast<size_t>(r));
+                }
+                ::close(pfd[0]);
+                int st = 0;
+                while (::waitpid(g, &st, 0) < 0 && errno == EINTR) {
+                }
+                out("xlro " + (msg.empty() ? std::string("other") : msg));
+            });
         } else if (o == "LIMITALL") {
             if (tk.size() != 1) return (void)bad_arg(out, line);
             guarded(out, "limitall", [&] {
@@ -1155,6 +1234,19 @@ void run_conc_case(const Case& c, bool bin, const std::string& src, size_t nthre
                 if (query_op(shared, op.tk, op.line, tout)) continue;
                 if (op.tk[0] == "MEM" && op.tk.size() == 1) {
                     guarded(tout, "mem", [&] { tout("mem " + u64s(xcdat::memory_in_bytes(shared))); });
+                } else if (op.tk[0] == "SAVEBAD" && op.tk.size() == 2) {   // a save that must fail: `savebad exc`
+                    const std::string target = op.tk[1] == "full" ? std::string("/dev/full") : std::string("/nonexistent-verif-dir/out.bin");
+                    try {
+                        std::uint64_t r = xcdat::save(shared, target);
+                        tout("savebad ret:" + u64s(r));
+                    } catch (const xcdat::exception& e) {
+                        // the message of the exception being handled must be this thread's own
+                        const std::string w = e.what();
+                        const bool mine = op.tk[1] == "full" ? w.find("write") != std::string::npos : w.find("open") != std::string::npos;
+                        tout(mine ? "savebad exc" : "savebad exc-with-foreign-message:" + w.substr(w.rfind('/') == std::string::npos ? 0 : w.rfind('/') + 1));
+                    } catch (...) {
+                        tout("savebad other");
+                    }
                 } else if (op.tk[0] == "SAVE" && op.tk.size() == 1) {
                     guarded(tout, "save", [&] {
                         TempFile tf;
